@@ -196,6 +196,7 @@ class Judge:
         self.disp_lines = []
         self.reported = {}
         self.suppressed = 0
+        self.cur_seed = seed
 
     def count(self, key):
         self.hist[key] = self.hist.get(key, 0) + 1
@@ -213,7 +214,9 @@ class Judge:
 
     def note(self, line, nontrivial):
         self.events += 1
-        canon = re.sub(r"^(\w+) \d+ ", r"\1 ", line)
+        # sweep/disp ids are table positions (dropped); an oracle id names (domain, case, operation): with the seed
+        # it identifies the random input, so it stays in the canonical form
+        canon = line + " seed=%s" % self.cur_seed if line.startswith("orc ") else re.sub(r"^(\w+) \d+ ", r"\1 ", line)
         h = hashlib.sha256(canon.encode()).hexdigest()[:16]
         self.hashes.add(h)
         if nontrivial:
@@ -574,6 +577,7 @@ def run(ctx):
         if rc != 0:
             ctx.violation("the harness %s died (rc %s): %s" % (" ".join(a), rc, (err or "")[-300:]),
                           {"harness_args": a, "repo": REPO}, found_input=True, record={"site": "harness", "tags": ["harness_died"]})
+        J.cur_seed = a[a.index("--seed") + 1]
         J.run_lines(open(jp).read())
     J.judge_disp(drv, work)
     ctx.cov["harness_run_s"] = round(time.time() - th, 1)
